@@ -1,0 +1,42 @@
+// SPDX-FileCopyrightText: 2026 The Pion community <https://pion.ly>
+// SPDX-License-Identifier: MIT
+
+//go:build verif
+
+// Ownership contracts (comment-only) for property C09: every socket the agent
+// opens is closed exactly once or handed to a started candidate.
+// x.gClosed counts Close() calls on the object behind an interface value,
+// x.gHeld says that a started candidate owns it (see /verif/specs/lib/sockets.spec).
+
+package ice
+
+//@ func closeConnAndLog
+//@   props C09
+//@   trusted
+//@   modifies c.gClosed
+//@   ensures closes-a-real-connection-once: c != nil ==> c.gClosed == old(c.gClosed) + 1
+
+// addCandidate consumes the socket only on success: it is then owned by the
+// started candidate, or - for a duplicate candidate - already closed. On error
+// (cancelled context, closed loop) the caller still owns it.
+//@ func (*Agent).addCandidate
+//@   props C09
+//@   trusted
+//@   modifies candidateConn.gClosed, candidateConn.gHeld, fam:*
+//@   ensures success-consumes-the-socket: result == nil ==> (candidateConn.gHeld && candidateConn.gClosed == old(candidateConn.gClosed)) || (!candidateConn.gHeld && candidateConn.gClosed == old(candidateConn.gClosed) + 1) || old(candidateConn.gHeld)
+//@   ensures failure-leaves-it-with-the-caller: result != nil ==> candidateConn.gClosed == old(candidateConn.gClosed) && candidateConn.gHeld == old(candidateConn.gHeld)
+
+// One server-reflexive gathering attempt (per URL and local address).
+//@ func (*Agent).gatherCandidatesSrflx$1
+//@   props C09
+//@   requires listenAddr != nil
+//@   ghostvar acquired bool = false
+//@   ghostvar sock int = 0
+//@   site call listenUDPInPortRange#1 ghost acquired := result1 == nil
+//@   site call listenUDPInPortRange#1 ghost sock := result0.payload
+//@   site call closeConnAndLog#0 assert closes-only-its-own-socket-and-only-once: arg0.payload == conn.payload && (acquired ==> conn.gClosed == 0 && !conn.gHeld)
+//@   site call addCandidate#1 assert hands-over-an-open-socket: arg3.payload == conn.payload && acquired && conn.gClosed == 0
+//@   ghostvar released bool = false
+//@   site call closeConnAndLog#0 ghost released := true
+//@   site call addCandidate#1 ghost released := result == nil
+//@   ensures every-acquired-socket-is-closed-once-or-owned-by-a-candidate: acquired ==> released
